@@ -353,6 +353,47 @@ pub fn edge_f64(r: &mut Rng) -> u64 {
     }
 }
 /// unix seconds of a Time the wire can carry
+/// IPv6 addresses with structure: unspecified, loopback, IPv4-mapped (`::ffff:a.b.c.d`) and its near misses, IPv4-compatible,
+/// the NAT64 prefix, multicast, all ones, and random ones
+pub fn edge_v6(r: &mut Rng) -> [u8; 16] {
+    let v4 = if r.chance(1, 2) { edge_u32(r) } else { r.next() as u32 }.to_be_bytes();
+    let mut b = [0u8; 16];
+    match r.below(12) {
+        0 => {}
+        1 => b[15] = 1,
+        2 | 3 => {
+            b[10] = 0xff;
+            b[11] = 0xff;
+            b[12..].copy_from_slice(&v4);
+        }
+        4 => b[12..].copy_from_slice(&v4),
+        5 => {
+            // near misses of the mapped block
+            b[10] = *r.pick(&[0xffu8, 0xfe, 0x00]);
+            b[11] = *r.pick(&[0xfeu8, 0xff, 0x00]);
+            b[9] = *r.pick(&[0u8, 1]);
+            b[12..].copy_from_slice(&v4);
+        }
+        6 => {
+            b[..4].copy_from_slice(&[0x00, 0x64, 0xff, 0x9b]);
+            b[12..].copy_from_slice(&v4);
+        }
+        7 => b = [0xff; 16],
+        8 => {
+            b[0] = 0xff;
+            b[1] = 0x02;
+            b[15] = 1;
+        }
+        9 => {
+            b[0] = 0xfe;
+            b[1] = 0x80;
+            b[8..].copy_from_slice(&r.next().to_be_bytes());
+        }
+        _ => b = ((r.next() as u128) << 64 | r.next() as u128).to_be_bytes(),
+    }
+    b
+}
+
 pub fn time_in_range(r: &mut Rng) -> i64 {
     const E: [i64; 7] = [0, 1, 2208988799, 2208988800, 2208988801, 4294967294, 4294967295];
     let ntp = if r.chance(1, 2) { *r.pick(&E) } else { r.below(1 << 32) as i64 };
@@ -364,7 +405,7 @@ pub fn leaf(r: &mut Rng, ty: usize, len: Option<usize>) -> GV {
     match ty {
         T_ADDRESS => match r.below(3) {
             0 => GV::Addr4((r.next() as u32).to_be_bytes()),
-            1 => GV::Addr6(((r.next() as u128) << 64 | r.next() as u128).to_be_bytes()),
+            1 => GV::Addr6(edge_v6(r)),
             _ => {
                 let k = match len {
                     Some(k) => k.clamp(1, 15),
@@ -374,7 +415,7 @@ pub fn leaf(r: &mut Rng, ty: usize, len: Option<usize>) -> GV {
             }
         },
         T_IPV4 => GV::Ipv4(edge_u32(r).to_be_bytes()),
-        T_IPV6 => GV::Ipv6(((edge_u64(r) as u128) << 64 | edge_u64(r) as u128).to_be_bytes()),
+        T_IPV6 => GV::Ipv6(if r.chance(1, 2) { edge_v6(r) } else { ((edge_u64(r) as u128) << 64 | edge_u64(r) as u128).to_be_bytes() }),
         T_IDENT => GV::Ident(text(r, n)),
         T_URI => GV::Uri(r.bytes(n)),
         T_ENUM => GV::Enum(edge_u32(r) as i32),
@@ -910,6 +951,10 @@ fn gen_c03(o: &mut Out, r: &mut Rng, d: &GDict, tier: &str) {
             o.line(&format!("dec {}", hex(&m.encode(&mut None))));
         }
     }
+    for f in lying_fixed_frames(r, d, if thorough { 100000 } else { 2000 }) {
+        o.case("lying-fixed");
+        o.line(&format!("dec {}", hex(&f)));
+    }
     // (5) random octets behind a valid header
     let n_rand = if thorough { 300000 } else { 2000 };
     for _ in 0..n_rand {
@@ -932,6 +977,78 @@ fn gen_c03(o: &mut Out, r: &mut Rng, d: &GDict, tier: &str) {
         o.case("random");
         o.line(&format!("dec {}", hex(&f)));
     }
+}
+
+/// frames in which fixed-size AVPs declare a length other than their natural one while the octets of the natural size are
+/// present, alone or with the surplus/deficit compensated by a neighbour so that every enclosing length still adds up
+/// (finding F1 territory: what the decoder accepts here must still be usable without panicking)
+fn lying_fixed_frames(r: &mut Rng, d: &GDict, n: usize) -> Vec<Vec<u8>> {
+    let tys = [T_IPV4, T_IPV6, T_ENUM, T_F32, T_F64, T_I32, T_I64, T_TIME, T_U32, T_U64];
+    let nat = |ty: usize| match ty {
+        T_IPV6 => 16usize,
+        T_F64 | T_I64 | T_U64 => 8,
+        _ => 4,
+    };
+    let group = d.by_type(T_GROUPED).into_iter().find(|g| g.vendor.is_none()).unwrap().code;
+    let mut out = vec![];
+    for i in 0..n {
+        let k = 1 + r.below(4) as usize;
+        let mut items = vec![];
+        for _ in 0..k {
+            let ty = *r.pick(&tys);
+            let defs = d.by_type(ty);
+            let def = *r.pick(&defs);
+            items.push((def.code, def.vendor, nat(ty)));
+        }
+        let mut dvs: Vec<usize> = items.iter().map(|it| it.2).collect();
+        match i % 4 {
+            0 => {
+                for x in dvs.iter_mut() {
+                    *x = r.below(*x as u64 + 9) as usize;
+                }
+            }
+            1 | 2 => {
+                // move 4-octet units between members: the total is preserved
+                for _ in 0..(1 + r.below(3)) {
+                    let a = r.below(k as u64) as usize;
+                    let b = r.below(k as u64) as usize;
+                    if dvs[a] >= 4 {
+                        dvs[a] -= 4;
+                        dvs[b] += 4;
+                    }
+                }
+            }
+            _ => dvs.rotate_left(1),
+        }
+        let mut body = vec![];
+        let mut declared = 0usize;
+        for ((code, vendor, nat), dv) in items.iter().zip(dvs.iter()) {
+            let hl = if vendor.is_some() { 12 } else { 8 };
+            body.extend(code.to_be_bytes());
+            body.push(if vendor.is_some() { 0xc0 } else { 0x40 });
+            body.extend(&((hl + dv) as u32).to_be_bytes()[1..]);
+            if let Some(v) = vendor {
+                body.extend(v.to_be_bytes());
+            }
+            body.extend(r.bytes(*nat));
+            body.extend(vec![0u8; pad(hl + dv)]);
+            declared += hl + dv + pad(hl + dv);
+        }
+        if r.chance(1, 3) {
+            let mut g = vec![];
+            g.extend(group.to_be_bytes());
+            g.push(0x40);
+            g.extend(&((8 + declared) as u32).to_be_bytes()[1..]);
+            g.extend(body);
+            body = g;
+            declared += 8;
+        }
+        let mut f = header(r).encode(&mut None);
+        f.extend(body);
+        set24(&mut f, 1, 20 + declared);
+        out.push(f);
+    }
+    out
 }
 
 fn gen_c04(o: &mut Out, r: &mut Rng, d: &GDict, tier: &str) {
@@ -990,6 +1107,10 @@ fn gen_c04(o: &mut Out, r: &mut Rng, d: &GDict, tier: &str) {
             o.case("msglensweep");
             o.line(&format!("decq {}", hex(&g)));
         }
+    }
+    for f in lying_fixed_frames(r, d, if thorough { 200000 } else { 3000 }) {
+        o.case("lying-fixed");
+        o.line(&format!("decq {}", hex(&f)));
     }
     // E.164 length edge (the 15-octet buffer slice) and address lengths
     let adef = d.by_type(T_ADDRESS)[0];
@@ -1933,6 +2054,32 @@ fn gen_c12(o: &mut Out, r: &mut Rng, d: &GDict, tier: &str) {
         o.line(&format!("cli {} e - - 66", sends.join(",")));
         o.case(&format!("client close-mid-write n={} expect=any silent=0", n));
         o.line(&format!("cli {} w:3,e a3,p,p,p,a2,p - 67", sends.join(",")));
+        // (7) the write side fails in the k-th send (at its first octet, after one octet, or half way) while the
+        // earlier requests are outstanding; the reader learns of the dead connection afterwards (close / reset), with
+        // or without some answers delivered first. Every future handed out must still complete.
+        for k in 0..n {
+            let before: usize = lens[..k].iter().map(|l| request_size(*l)).sum();
+            for j in [0usize, 1, request_size(lens[k]) / 2] {
+                for (ei, end) in ["e", "f"].iter().enumerate() {
+                    let acc = before + j;
+                    // one accept event per write call: the earlier requests whole, then j octets of the k-th
+                    let mut wv: Vec<String> = lens[..k].iter().map(|l| format!("a{}", request_size(*l))).collect();
+                    if j > 0 {
+                        wv.push(format!("a{}", j));
+                    }
+                    wv.push("f".into());
+                    let wr = wv.join(",");
+                    let deliver = if k > 0 && (j + ei) % 2 == 0 { 1 } else { 0 };
+                    let mut rd = vec![format!("w:{}", acc)];
+                    if deliver > 0 {
+                        rd.push(format!("d:{}", hex(&frames[0])));
+                    }
+                    rd.push(end.to_string());
+                    o.case(&format!("client write-fail k={} j={} n={} expect=any silent=0", k, j, n));
+                    o.line(&format!("cli {} {} {} {} {}", sends.join(","), rd.join(","), wr, if deliver > 0 { ans[0].clone() } else { "-".to_string() }, 68));
+                }
+            }
+        }
     }
 }
 
@@ -2040,7 +2187,8 @@ fn gen_c15(o: &mut Out, r: &mut Rng, _tier: &str, extra: &[String]) {
                 o.line("dreset");
                 o.line("doc_begin");
                 o.line(&format!("app 4 {}", hexd(b"T")));
-                o.line(&doc_avp_line("X", 500, scope, Some("M"), tn));
+                // (enumeration items under the data element are documentation: they never change the type)
+                o.line(&format!("{} {}", doc_avp_line("X", 500, scope, Some("M"), tn), if twins { 2 } else { 0 }));
                 if twins {
                     // the same code under other vendors, typed differently, and a neighbouring code
                     for other in [Some(7u32), Some(4294967295)] {
@@ -2048,13 +2196,30 @@ fn gen_c15(o: &mut Out, r: &mut Rng, _tier: &str, extra: &[String]) {
                     }
                     o.line(&doc_avp_line("Next", 501, scope, None, "Unsigned32"));
                 }
+                // groups to put the AVP in: vendor-less, and under each of the scoping vendors
+                o.line(&doc_avp_line("G0", 600, None, None, "Grouped"));
+                o.line(&doc_avp_line("G5", 601, Some(5), None, "Grouped"));
+                o.line(&doc_avp_line("G6", 602, Some(6), None, "Grouped"));
                 o.line("doc_end load");
                 for wire in [None, Some(5u32), Some(6u32), Some(7u32)] {
                     let mut m = header(r);
-                    m.avps.push(GA { code: 500, vendor: wire, flags: 0x40, v: value_for(r, ty) });
+                    let a = GA { code: 500, vendor: wire, flags: 0x40, v: value_for(r, ty) };
+                    m.avps.push(a.clone());
                     o.line(&format!("dec {}", hex(&m.encode(&mut None))));
-                    // nested inside a group too
                     o.line(&format!("dget 500 {}", vend(wire)));
+                    // nested inside a group too: the enclosing group's vendor must not lend itself to the member,
+                    // directly or through a vendor-less group in between
+                    for (gc, gv) in [(600u32, None), (601, Some(5u32)), (602, Some(6u32))] {
+                        let mut m = header(r);
+                        m.avps.push(GA { code: gc, vendor: gv, flags: 0x40, v: GV::Grp(vec![a.clone()]) });
+                        o.line(&format!("dec {}", hex(&m.encode(&mut None))));
+                        if gv.is_some() {
+                            let inner = GA { code: 600, vendor: None, flags: 0x40, v: GV::Grp(vec![a.clone()]) };
+                            let mut m = header(r);
+                            m.avps.push(GA { code: gc, vendor: gv, flags: 0x40, v: GV::Grp(vec![inner]) });
+                            o.line(&format!("dec {}", hex(&m.encode(&mut None))));
+                        }
+                    }
                 }
             }
         }
@@ -2201,14 +2366,20 @@ fn gen_c16(o: &mut Out, r: &mut Rng, tier: &str, extra: &[String]) {
             if d.defs.iter().any(|x| x.name == bogus) || !bogus.is_char_boundary(bogus.len()) {
                 continue;
             }
-            let v = leaf(r, T_U32, None);
-            let mut ls = vec![];
-            v.ops(r, &mut ls);
-            o.lines(&ls);
-            o.line(&format!("add_by_name {}", hexd(bogus.as_bytes())));
-            o.line("enc");
-            o.line("len");
-            o.line("dump");
+            // values of every type and size (odd sizes included: their padding must not be accounted for either),
+            // and the failing call repeated
+            for _ in 0..1 + r.below(3) {
+                let ty = *r.pick(&[T_U32, T_UTF8, T_OCT, T_IDENT, T_U64, T_ADDRESS, T_URI, T_GROUPED, T_IPV6, T_TIME]);
+                let vl = *r.pick(&[1usize, 2, 3, 5, 6, 7, 9, 17, 4, 8]);
+                let v = if ty == T_GROUPED { GV::Grp(vec![avp(r, d, 0, 1)]) } else { leaf(r, ty, Some(vl)) };
+                let mut ls = vec![];
+                v.ops(r, &mut ls);
+                o.lines(&ls);
+                o.line(&format!("add_by_name {}", hexd(bogus.as_bytes())));
+                o.line("enc");
+                o.line("len");
+                o.line("dump");
+            }
             // ... and the message still works afterwards
             let a = avp(r, d, 1, 2);
             let mut ls = vec![];
